@@ -321,5 +321,7 @@ func runC17(c *Ctx) error {
 			}
 		}
 	}
+	// ---- (d) the window of a NEW connection of a long-lived server: zero bytes written, so it holds nothing
+	freshWindowScenario(c, 12)
 	return nil
 }
